@@ -454,3 +454,42 @@ func TopLevelFields(t *TSpec, data []byte, cfg Cfg) (map[int]int, error) {
 	}
 	return out, nil
 }
+
+// TopLevelSpans returns, per top-level field index, the concatenated bytes
+// (tags included) of every occurrence of that field.
+func TopLevelSpans(t *TSpec, data []byte, cfg Cfg) (map[int][]byte, error) {
+	u := t.Under()
+	if u.Kind != KStruct {
+		return nil, werr("TopLevelSpans: not a struct")
+	}
+	type fld struct {
+		t   *TSpec
+		opt string
+	}
+	byIndex := map[int]fld{}
+	for _, f := range u.Fields {
+		if idx, opt, ok := f.Enc(); ok {
+			byIndex[idx] = fld{f.Type, opt}
+		}
+	}
+	out := map[int][]byte{}
+	off := 0
+	for off < len(data) {
+		tag, n, err := readUvarintStrict(data[off:])
+		if err != nil {
+			return nil, err
+		}
+		idx, wt := int(tag>>3), int(tag&7)
+		f, ok := byIndex[idx]
+		if !ok {
+			return nil, werr("unknown field index %d", idx)
+		}
+		_, fn, err := canonFieldPayload(f.t, f.opt, wt, data[off+n:], cfg, nil, 0, false)
+		if err != nil {
+			return nil, werr("field %d: %v", idx, err)
+		}
+		out[idx] = append(out[idx], data[off:off+n+fn]...)
+		off += n + fn
+	}
+	return out, nil
+}
